@@ -115,6 +115,11 @@ def run_pylayer(t, strings):
             seen["chain"] = [int(x) for x in chain_ids]
             seen["skip"] = [int(min(int(a), int(b), int(c), int(d)) < 0) for (a, b, c), d in zip(nco.tolist(), ca.tolist())]
             seen["shape"] = list(xyz.shape)
+            seen["k"] = len(ca)
+            if len(ca) != n:
+                # the wrapper hands only some of the residues to the kernel: the recorded output of dssp() for the full table
+                # does not apply (no comparison at this layer; the end-to-end stream decides whether that wrapper is right)
+                return " " * (int(xyz.shape[0]) * len(ca))
             return "".join(strings)
 
     orig = dssp_mod._geometry
@@ -122,8 +127,12 @@ def run_pylayer(t, strings):
     try:
         full = md.compute_dssp(traj, simplified=False)
         simp = md.compute_dssp(traj, simplified=True)
+    except Exception as e:  # noqa: BLE001
+        return {"error": "%s: %s" % (type(e).__name__, str(e)[:300]), "subset_call": seen.get("k") not in (None, n)}
     finally:
         dssp_mod._geometry = orig
+    if seen.get("k") != n:
+        return {"subset_call": True, "k": seen.get("k")}
     args_ok = (seen.get("chain") == [sorted(set(t["chain"])).index(c) for c in t["chain"]]
                and seen.get("skip") == [int(m != 0) for m in t["missing"]] and seen.get("shape") == [F, top.n_atoms, 3])
     return {"full": [[str(x) for x in row] for row in full], "simp": [[str(x) for x in row] for row in simp],
